@@ -406,25 +406,33 @@ def run(ctx):
         pops = [c for c in calls_in(q) if (dotted_of(c.func) or "").endswith("heappop")]
         for c in pops:
             st = getattr(c, "_parent", None)
+            while st is not None and not isinstance(st, ast.stmt):
+                st = getattr(st, "_parent", None)
             if not isinstance(st, ast.Assign):
                 continue
-            tg = st.targets[0]
-            names = [e.id for e in (tg.elts if isinstance(tg, ast.Tuple) else [tg]) if isinstance(e, ast.Name) and e.id != "_"]
+            names = [y.id for t in st.targets for y in ast.walk(t) if isinstance(y, ast.Name) and y.id != "_"]
             lp = getattr(st, "_parent", None)
             while lp is not None and not isinstance(lp, (ast.While, ast.For)):
                 lp = getattr(lp, "_parent", None) if lp is not q.node else None
             if lp is None or not names:
                 continue
+            # names that carry what was popped: the targets of the pop and locals of the loop bound from them
+            carried = set(names)
+            for _ in range(2):
+                for a in ast.walk(lp):
+                    if isinstance(a, ast.Assign) and a is not st and any(isinstance(y, ast.Name) and y.id in carried for y in ast.walk(a.value)):
+                        carried |= {y.id for t in a.targets for y in ast.walk(t) if isinstance(y, ast.Name) and isinstance(y.ctx, ast.Store)}
             emitted = names[-1]
             n10 += 1
-            other = [a for a in ast.walk(lp) if isinstance(a, (ast.Assign, ast.AnnAssign, ast.AugAssign, ast.For)) and a is not st and any(
-                isinstance(y, ast.Name) and y.id == emitted and isinstance(y.ctx, ast.Store) for t in (
-                    a.targets if isinstance(a, ast.Assign) else [a.target]) for y in ast.walk(t))]
+            other = [a for a in ast.walk(lp) if isinstance(a, (ast.Assign, ast.AnnAssign, ast.AugAssign)) and a is not st and any(
+                isinstance(y, ast.Name) and y.id in carried and isinstance(y.ctx, ast.Store) for t in (
+                    a.targets if isinstance(a, ast.Assign) else [a.target]) for y in ast.walk(t))
+                and not any(isinstance(y, ast.Name) and y.id in carried for y in ast.walk(getattr(a, "value", None) or ast.Pass()))]
             ctx.check("R10", f"{q.local}: the emitted node `{emitted}` comes from the queue only", not other, q, other[0] if other else st,
                       f"`{norm(other[0])[:70] if other else ''}` binds the node that is emitted next from something else than `{norm(c)[:40]}`: it jumps the queue - nodes with an "
                       "earlier place in the previous order are still waiting, so a graph that was already in a valid order comes out rearranged (`[A, B, C, D]` with C after A and "
                       "D after B becomes `[A, C, B, D]`)",
-                      how="bindings of the name that receives heapq.heappop inside the drain loop", construct="emitted node bound outside heappop")
+                      how="bindings of the names that carry what heapq.heappop returned inside the drain loop", construct="emitted node bound outside heappop")
             # every node that becomes free is pushed, whatever else holds
             for iff in (x for x in ast.walk(lp) if isinstance(x, ast.If)):
                 zero = any(isinstance(y, ast.Compare) and len(y.ops) == 1 and isinstance(y.ops[0], (ast.Eq, ast.LtE)) and isinstance(y.comparators[0], ast.Constant)
@@ -442,11 +450,12 @@ def run(ctx):
     from ..shared import ref_attr_guards
 
     n7 = 0
-    for g in parts + [repo.func("onnx_ir.traversal:RecursiveGraphIterator._iterate_subgraphs")]:
+    rgi = repo.cls("onnx_ir.traversal:RecursiveGraphIterator")
+    for g in parts + [m_ for m_ in repo.live(rgi.methods.values()) if not isinstance(m_.node, ast.Lambda)]:
         for node, guarded in ref_attr_guards(g):
             n7 += 1
             ctx.check("R7", f"S18 {g.local}: the graph-attribute dispatch is not reached for reference attributes", guarded, g, node,
-                      f"`{norm(node.test)[:60]}` holds for a reference attribute of graph type as well, whose value is None: iterating it raises TypeError - sorting or "
+                      f"`{norm(getattr(node, 'test', node))[:60]}` holds for a reference attribute of graph type as well, whose value is None: iterating it raises TypeError - sorting or "
                       "walking a function whose control-flow node takes its branches from attribute parameters fails (and so does deserialize_model for a model with device "
                       "configurations, which walks every node)",
                       how="an is_ref() test that continues / encloses precedes every `attr.type == GRAPH(S)` dispatch that reads attr.value", construct=f"reference attributes reach the graph dispatch of {g.local}")
@@ -454,7 +463,7 @@ def run(ctx):
     # … and passing over one attribute does not end the walk over the others: the loops over a node's attributes are left only
     # by running out of attributes (no `return` / `break` of their own - a reference attribute is skipped with `continue`)
     n7b = 0
-    for g in parts + [repo.func("onnx_ir.traversal:RecursiveGraphIterator._iterate_subgraphs")]:
+    for g in parts + [m_ for m_ in repo.live(rgi.methods.values()) if not isinstance(m_.node, ast.Lambda)]:
         for lp in (x for x in own_nodes(g.node) if isinstance(x, ast.For) and any(isinstance(y, ast.Attribute) and y.attr == "attributes" for y in ast.walk(x.iter))):
             n7b += 1
             bad = None
